@@ -38,9 +38,34 @@ type root = [32]byte
 type key [2]byte
 type val string
 
-func keyToBytes(k key) ([]byte, error) { return []byte{k[0], k[1]}, nil }
+// varKeys (config token "varkeys"): keys serialize to a variable number of bytes (trailing zero bytes are stripped), so
+// that one key's bytes can be a proper prefix of another's and one key serializes to zero bytes.
+var varKeys = simrt.ConfigHas("varkeys")
+
+func keyToBytes(k key) ([]byte, error) {
+	if varKeys {
+		switch {
+		case k[0] == 0 && k[1] == 0:
+			return []byte{}, nil
+		case k[1] == 0:
+			return []byte{k[0]}, nil
+		}
+	}
+	return []byte{k[0], k[1]}, nil
+}
 
 func keyFromBytes(b []byte) (key, int, error) {
+	if varKeys {
+		switch len(b) {
+		case 0:
+			return key{}, 0, nil
+		case 1:
+			return key{b[0], 0}, 1, nil
+		case 2:
+			return key{b[0], b[1]}, 2, nil
+		}
+		return key{}, 0, fmt.Errorf("key needs at most 2 bytes, got %d", len(b))
+	}
 	if len(b) < 2 {
 		return key{}, 0, fmt.Errorf("key needs 2 bytes, got %d", len(b))
 	}
@@ -78,6 +103,11 @@ func commonPrefix(a, b [32]byte) int {
 }
 
 func init() {
+	if varKeys {
+		// "", "a", "ab", "b", "ba", "aa", "bb", "c": prefixes of one another, and the empty key
+		universe = [8]key{{0, 0}, {'a', 0}, {'a', 'b'}, {'b', 0}, {'b', 'a'}, {'a', 'a'}, {'b', 'b'}, {'c', 0}}
+		return
+	}
 	kOf := func(i int) key { return key{byte(i >> 8), byte(i)} }
 	hOf := func(k key) [32]byte { return sha256.Sum256(k[:]) }
 	universe[0] = kOf(1)
